@@ -104,6 +104,8 @@ let run_query ix = function
   | L [A "score"; ts; idf; k1; b] -> of_api (of_list of_z) (M.score_bm25 ix (nl ts) (to_z idf) (to_z k1) (to_z b))
   | L [A "args"; ts] ->
       of_api (fun ((((tfs, dfs), dls), total), n) -> L [of_nl tfs; of_nl dfs; of_nl dls; of_n total; of_n n]) (M.score_args ix (nl ts))
+  | L [A "tfr"; t; lo; hi] -> of_api of_nl (M.termfreqs_range ix (to_n t) (to_option to_n lo) (to_option to_n hi))
+  | L [A "phraser"; ts; lo; hi] -> of_api of_nl (M.phrase_freqs_range ix (nl ts) (to_option to_n lo) (to_option to_n hi))
   | L [A "lens"] -> L [A "ok"; of_nl (M.doclengths ix)]
   | L [A "n"] -> L [A "ok"; of_n (M.corpus_size ix)]
   | L [A "total"] -> L [A "ok"; of_n (M.total_len ix)]
@@ -113,6 +115,12 @@ let spec_query docs = function
   | L [A "df"; t] -> L [A "ok"; of_n (M.df_spec docs (to_n t))]
   | L [A "pos"; t] -> L [A "ok"; of_list of_nl (M.positions_spec docs (to_n t))]
   | L [A "phrase"; ts] -> L [A "ok"; L [of_nl (M.phrase_spec docs (nl ts)); of_nl (M.phrase_nonoverlap_spec docs (nl ts)); of_bool (M.no_adjacent_repeat (nl ts))]]
+  | L [A "tfr"; t; lo; hi] ->
+      if M.aligned (to_option to_n lo) (to_option to_n hi) then L [A "ok"; of_nl (M.tf_range_spec docs (to_n t) (to_option to_n lo) (to_option to_n hi))]
+      else L [A "exc"; A "ValueError"]
+  | L [A "phraser"; ts; lo; hi] ->
+      if M.aligned (to_option to_n lo) (to_option to_n hi) then L [A "ok"; of_nl (M.phrase_range_spec docs (nl ts) (to_option to_n lo) (to_option to_n hi))]
+      else L [A "exc"; A "ValueError"]
   | L [A "lens"] -> L [A "ok"; of_nl (M.lens_spec docs)]
   | L [A "n"] -> L [A "ok"; A (string_of_int (List.length docs))]
   | L [A "total"] -> L [A "ok"; of_n (M.total_spec docs)]
